@@ -34,7 +34,37 @@ impl<T> SendBuffer<T> {
     /// frame is sent, the previous frame will be overwritten.
     pub fn write(&self, frame: T) {
         self.tx_waker.wake_by(Signals::TRANSPORT);
+        #[cfg(gmquic_verif)]
+        sendbuf_verif::emit("notified");
         *self.item.lock().unwrap() = Some(frame);
+        #[cfg(gmquic_verif)]
+        sendbuf_verif::emit("stored");
+    }
+}
+
+/// Verification hook (compiled only with `--cfg gmquic_verif`; observe-only): a thread-local sink that is told
+/// when [`SendBuffer::write`] has completed one of its two critical sections ("notified": the send task was
+/// signalled, "stored": the frame is in the buffer), in the order the code executes them.
+#[cfg(gmquic_verif)]
+pub mod sendbuf_verif {
+    use std::cell::RefCell;
+
+    type Sink = Box<dyn FnMut(&'static str)>;
+    thread_local! {
+        static SINK: RefCell<Option<Sink>> = const { RefCell::new(None) };
+    }
+
+    /// Install (or remove) the sink of the calling thread.
+    pub fn set_sink(sink: Option<Sink>) {
+        SINK.with(|s| *s.borrow_mut() = sink);
+    }
+
+    pub(super) fn emit(point: &'static str) {
+        SINK.with(|s| {
+            if let Some(f) = s.borrow_mut().as_mut() {
+                f(point)
+            }
+        });
     }
 }
 
